@@ -230,13 +230,13 @@ func init() {
 			"quick tier compiles error-free trees under 5 of the 42 configurations (all 42 for every 8th case); thorough under all 42",
 		},
 		Strata: []*fw.Stratum{
-			{Name: "bytes", Quick: 40000, Thorough: 400000, Run: func(t *fw.T) {
+			{Name: "bytes", Quick: 120000, Thorough: 1000000, Run: func(t *fw.T) {
 				r := t.Rand()
 				src := genBytes(r, r.IntN(48))
 				checkParseContract(t, src, "bytes")
 				t.Distinct(src)
 			}},
-			{Name: "soup", Quick: 60000, Thorough: 800000, Run: func(t *fw.T) {
+			{Name: "soup", Quick: 200000, Thorough: 1600000, Run: func(t *fw.T) {
 				r := t.Rand()
 				src := genSoup(r, 1+r.IntN(16))
 				checkParseContract(t, src, "soup")
@@ -245,7 +245,7 @@ func init() {
 					t.Sample(map[string]any{"stratum": "soup", "input": fmt.Sprintf("%q", src)})
 				}
 			}},
-			{Name: "mutants", Quick: 40000, Thorough: 600000, Run: func(t *fw.T) {
+			{Name: "mutants", Quick: 120000, Thorough: 1000000, Run: func(t *fw.T) {
 				r := t.Rand()
 				_, rd := randProgram(r)
 				src := mutate(r, rd)
@@ -255,7 +255,7 @@ func init() {
 					t.Sample(map[string]any{"stratum": "mutants", "input": src})
 				}
 			}},
-			{Name: "valid-programs", Quick: 3000, Thorough: 30000, Run: func(t *fw.T) {
+			{Name: "valid-programs", Quick: 6000, Thorough: 50000, Run: func(t *fw.T) {
 				r := t.Rand()
 				_, rd := randProgram(r)
 				checkParseContract(t, rd.Src, "valid")
